@@ -61,4 +61,27 @@ RampAllowed(cur, fa, fb, now, minBlocks, minAmp, maxAmp, maxChange) ==
   /\ minAmp \preceq fa /\ fa \preceq maxAmp
   /\ fa \preceq (cur ** maxChange) /\ cur \preceq (fa ** maxChange)
   /\ (now ++ minBlocks) \preceq fb
+\* ---- shared clause machinery of the two-asset pool (pure function and contract level) ---------------------------
+Norm(x, dec) == x ** Pow(N(10), 18 - dec)
+GrossOf(o) == ((o.ret ++ o.sf) ++ o.pf) ++ o.bf
+\* rounding dust, in normalised units: the code truncates D and the offer side to the ask precision and solves y to one
+\* ask base unit; each is worth at most one ask unit times the local slope of the curve (how much y moves when x moves by
+\* one ask unit), which is measured on the independent curve itself
+Dust2(X1, D, amp, da) ==
+  LET U == Pow(N(10), 18 - da)
+      slope == (Ystar2(NMax(X1 -- U, One), D, amp) -- Ystar2(X1, D, amp)) // U
+  IN (N(4) ++ (N(4) ** slope)) ** U
+\* A deposit must not mint more than its proportional increase of the invariant: minted / S <= (D1 - D0) / D0 on the
+\* independently solved D.  Dstar is the floor of the real root, so "minted * D0 > S * (D1 + 1 - D0)" proves a real
+\* excess (literal clause).  The code's own D0/D1 come from Newton iterations that stop when two iterates differ by at
+\* most one unit; the distance to the root that is left grows with the square root of the pool's lopsidedness
+\* (measured: at most (16 + sqrt(max reserve / min reserve)) / 10 units of D over 1.2e5 calls up to ratios of 1e22),
+\* and is worth that many LP base units since the supply never exceeds D in a reachable pool.  The dust clause allows
+\* tol = (16 + sqrt(lopsidedness)) units of D of the coarser asset and must hold.
+Lopsided(hi, lo) == Sqrt(hi // NMax(One, lo))
+MintChecks(prefix, suffix, m, S, D0, D1, tol) ==
+  LET lit == (m ** D0) \preceq (S ** ((D1 ++ One) -- D0))
+  IN << <<prefix \o ".deposit.mint<=proportional-increase-of-the-invariant" \o suffix, lit>>,
+        <<prefix \o ".deposit.mint-excess-within-rounding-dust" \o suffix,
+           lit \/ (D0 \succ tol /\ ((m -- One) ** (D0 -- tol)) \preceq (S ** ((D1 -- D0) ++ (Two ** tol))))>> >>
 =============================================================================
